@@ -329,6 +329,40 @@ def install(ip):
             lists.append(xs)
         return [tuple(t) for t in itertools.product(*lists)]
 
+    @reg('builtins.any')
+    def _bany(ip, args, kw):
+        loop = ip.iterate(args[0])
+        while True:
+            x = yield from ip.next_item(loop)
+            if x is I.END:
+                return False
+            if ip.truth(x):
+                return True
+
+    @reg('builtins.all')
+    def _ball(ip, args, kw):
+        loop = ip.iterate(args[0])
+        while True:
+            x = yield from ip.next_item(loop)
+            if x is I.END:
+                return True
+            if not ip.truth(x):
+                return False
+
+    @reg('itertools.combinations')
+    def _combinations(ip, args, kw):
+        xs = yield from _list(ip, [args[0]], {})
+        r = args[1]
+        if is_sym(r):
+            raise Unsupported('combinations with a symbolic r')
+        return [tuple(t) for t in itertools.combinations(xs, int(r))]
+
+    @reg('dict.fromkeys')
+    def _fromkeys(ip, args, kw):
+        keys = yield from _list(ip, [args[0]], {})
+        val = args[1] if len(args) > 1 else kw.get('value')
+        return dict((ip.hashable(k), val) for k in keys)
+
     @reg('copy.deepcopy')
     def _deepcopy(ip, args, kw):
         memo_ = {}
